@@ -178,6 +178,19 @@ Definition model_eqb_client (c : ccall) (e : cenv) (o : cobs) : bool :=
   && (if cr_refused r then true else Z.eqb (cr_err r) (co_err o))
   && match cr_ret r with Some s => String.eqb s (co_ret o) | None => true end.
 
+(* ---- known findings: recognisers of the failing SHAPE (never of the property) ---- *)
+(* tag 1: PinPath of "/<ipfs|ipns|ipld>/recover": the request POST /pins/<kt>/recover belongs to the Recover route,
+   which routes() lists before PinPath (hash = <kt> does not decode: 400, nothing arrives) *)
+Definition is_recover_shadow (c : ccall) : bool :=
+  String.eqb (cc_name c) "PinPath" &&
+  match cc_path c with
+  | Some p => match segments (trim_slash p) with
+              | [e; kt; r] => String.eqb e "" && str_in kt ["ipfs"; "ipns"; "ipld"] && String.eqb r "recover"
+              | _ => false end
+  | None => false
+  end.
+Definition client_tag (c : ccall) : N := if is_recover_shadow c then 1%N else 0%N.
+
 Inductive ccase := CHttp (rq : rreq) (e : renv) (cmp : bool) (o : robs) | CClient (c : ccall) (e : cenv) (o : cobs).
 Definition case := (N * ccase)%type.
 
@@ -187,7 +200,7 @@ Definition check_case (c : case) : list (N * N * N) :=
   | CHttp rq e cmp o =>
       (if cmp && negb (model_eqb_http rq e o) then [(id, 1%N, 0%N)] else []) ++ map (fun code => (id, code, 0%N)) (spec_codes_http rq e o)
   | CClient cl e o =>
-      (if model_eqb_client cl e o then [] else [(id, 1%N, 0%N)]) ++ map (fun code => (id, code, 0%N)) (spec_codes_client cl e o)
+      (if model_eqb_client cl e o then [] else [(id, 1%N, 0%N)]) ++ map (fun code => (id, code, client_tag cl)) (spec_codes_client cl e o)
   end.
 
 Definition failing (cs : list case) : list (N * N * N) := flat_map check_case cs.
